@@ -7,6 +7,7 @@ import (
 
 	"cqlsim/world"
 
+	"github.com/datastax/go-cassandra-native-protocol/frame"
 	"github.com/datastax/go-cassandra-native-protocol/message"
 	"github.com/datastax/go-cassandra-native-protocol/primitive"
 )
@@ -170,7 +171,17 @@ func c09(e *Env) {
 			msg = pm
 		}
 		expectHandled := isSelect && c09Resolve(effCurrent, q, t)
-		r := cl.Send(style, tok, msg, nil)
+		// frame options do not change who answers: a custom payload (here the one DSE graph
+		// requests carry) or the tracing flag on a statement the proxy must answer itself
+		var mod func(*frame.Frame)
+		if cl.Version >= 4 && style == "query" && c.Choose("c09payload", 6) == 5 {
+			key := []string{"graph-source", "graph-language", "x"}[c.Choose("c09payloadkey", 3)]
+			mod = func(fr *frame.Frame) { fr.SetCustomPayload(map[string][]byte{key: []byte("g")}) }
+			e.Res.Stats["probe.c09.statement_with_custom_payload"]++
+		} else if c.Choose("c09tracing", 8) == 7 {
+			mod = func(fr *frame.Frame) { fr.RequestTracingId(true) }
+		}
+		r := cl.Send(style, tok, msg, mod)
 		if !w.RunUntil(func() bool { return len(r.Replies) > 0 || !cl.Connected() }, 5*time.Minute) || !cl.Connected() {
 			if !w.Stopped() {
 				w.Violate("c09-drain", "statement-not-answered", fmt.Sprintf("%q (current keyspace %q) got no reply (connection open=%v)", text, effCurrent, cl.Connected()))
